@@ -72,6 +72,17 @@ struct ProbeRF : public RFKickMap {
     float angle() const { return _angle; }
     void recalc(float phase, float ampl) { _calcKick(phase, ampl); }
 };
+struct ProbeDyn : public DynamicRFKickMap {
+    using DynamicRFKickMap::DynamicRFKickMap;
+    const hi* table() const { return _hinfo; }
+    size_t ip() const { return _ip; }
+    size_t rows() const { return _offset.size(); }
+    uint32_t lastbunch() const { return _lastbunch; }
+    const std::vector<meshaxis_t>& offsets() const { return _offset; }
+    float syncphase() const { return _syncphase; }
+    float bl2phase() const { return _bl2phase; }
+    float angle() const { return _angle; }
+};
 struct ProbeDrift : public DriftMap {
     using DriftMap::DriftMap;
     const hi* table() const { return _hinfo; }
